@@ -183,6 +183,12 @@ type world struct {
 	roundsAfter int64
 	needRounds  int64
 	nontrivial  bool
+	maxAbs      int64
+	dead        bool // a listed known finding other than D3 was hit: the rest of the history is not executed
+
+	// TestStateUpdate: the model before the block and the block's change set (key attribution on failure only)
+	preBlock     *model
+	blockChanges []chg
 }
 
 func (w *world) logf(f string, a ...interface{}) { w.log = append(w.log, fmt.Sprintf(f, a...)) }
@@ -190,6 +196,7 @@ func (w *world) text() string                   { return strings.Join(w.log, "|"
 func (w *world) class(c string)                 { w.cls[c] = true }
 
 func (w *world) classes() []string {
+	w.cls[w.magnitudeClass()] = true
 	out := make([]string, 0, len(w.cls))
 	for c := range w.cls {
 		out = append(out, c)
@@ -218,6 +225,7 @@ func newWorld(t ev.TB, initial []chg) *world {
 
 // settle advances the model(s) by f after the implementation has executed the same action, and compares.
 func (w *world) settle(action string, f func(m *model), checkProposer bool, newcomers map[common.Address]bool) {
+	defer w.noteMagnitude()
 	if w.mode == modeSpec {
 		alt := w.spec.clone()
 		alt.rescale = false
@@ -258,42 +266,72 @@ func (w *world) settle(action string, f func(m *model), checkProposer bool, newc
 // report turns a mismatch into a violation with a key that says what failed.
 func (w *world) report(action string, d *mismatch, m *model, newcomers map[common.Address]bool, extra string) {
 	key := ""
-	isUpdate := action == "update" || action == "new" || action == "block"
+	prefix := "update" // the action was a change set
+	switch action {
+	case "new":
+		prefix = "new-set" // NewValidatorSet: change set on the empty set + one round
+	case "block":
+		prefix = "block" // updateState: change set (if any) + one round
+	case "increment":
+		prefix = "rotation"
+	}
 	switch {
+	case action == "block" && w.preBlock != nil && w.roundsVariantMatches() != "":
+		key = "state.rounds-per-block"
+		extra += " — NextValidators " + w.roundsVariantMatches() + "; exactly one round per block is expected"
 	case m.clipped:
 		key = "overflow." + action // the specification had to clip: int64 arithmetic left its range
 	case d.field == "proposer":
 		key = "rotation.proposer"
-	case d.field == "priorities" && !isUpdate:
+	case d.field == "priorities" && prefix == "rotation":
 		key = "rotation.priorities"
 	case d.field == "priorities":
-		key = "update.priorities"
-		if w.offsetsUniformAmongOld(m, newcomers) {
-			if len(newcomers) > 0 {
-				key = "update.newcomer-priority"
-			} else {
-				key = "update.centring"
-			}
+		key = prefix + ".priorities"
+		switch w.offsetPattern(m, newcomers) {
+		case "newcomers-differ":
+			key = "update.newcomer-priority"
+		case "all-shifted":
+			key = "update.centring"
 		}
-	case !isUpdate:
+	case prefix == "rotation":
 		key = "rotation.set-changed" // a round changed membership, power, order or total
 	case d.field == "membership" || d.field == "power":
-		key = "update.membership"
-	case d.field == "order":
-		key = "update.order"
-	case d.field == "total":
-		key = "update.total"
+		key = prefix + ".membership"
 	default:
-		key = "update." + d.field
+		key = prefix + "." + d.field // order, total
 	}
-	ev.Violation(w.t, key, w.text(), "after %s: %s%s\n impl  %s\n model %s", action, d.msg, extra, snap(w.vs), m)
+	if ev.Violation(w.t, key, w.text(), "after %s: %s%s\n impl  %s\n model %s", action, d.msg, extra, snap(w.vs), m) {
+		// listed as known: implementation and model have parted, nothing after this point can be judged
+		w.dead = true
+		w.class("abandoned-after-known:" + key)
+	}
 }
 
-// offsetsUniformAmongOld: implementation and model differ by one common offset on all members that are not
-// newcomers (so the relative priorities of old members are right and the deviation comes from the newcomers'
-// starting value or from centring).
-func (w *world) offsetsUniformAmongOld(m *model, newcomers map[common.Address]bool) bool {
-	first := true
+// roundsVariantMatches: the failing block result equals the change set followed by no round or by two rounds.
+func (w *world) roundsVariantMatches() string {
+	for _, rounds := range []int{0, 2} {
+		v := w.preBlock.clone()
+		if len(w.blockChanges) > 0 {
+			v.update(w.blockChanges)
+		}
+		for i := 0; i < rounds; i++ {
+			v.increment(1)
+		}
+		if compare(w.vs, v, false) == nil {
+			if rounds == 0 {
+				return "was not advanced by the block"
+			}
+			return "was advanced by two rounds"
+		}
+	}
+	return ""
+}
+
+// offsetPattern looks at implementation-minus-model priority offsets: "all-shifted" when every member is off by the
+// same amount (centring), "newcomers-differ" when the old members agree on one offset (their relative priorities are
+// right) and a newcomer does not (its starting value is wrong), "" otherwise.
+func (w *world) offsetPattern(m *model, newcomers map[common.Address]bool) string {
+	first, anyOld := true, false
 	var off int64
 	for _, v := range w.vs.Validators {
 		if newcomers[v.Address] {
@@ -301,16 +339,63 @@ func (w *world) offsetsUniformAmongOld(m *model, newcomers map[common.Address]bo
 		}
 		mv := m.find(v.Address)
 		if mv == nil {
-			return false
+			return ""
 		}
+		anyOld = true
 		o := v.ProposerPriority - mv.prio
 		if first {
 			off, first = o, false
 		} else if o != off {
-			return false
+			return ""
 		}
 	}
-	return true
+	if !anyOld {
+		return ""
+	}
+	for _, v := range w.vs.Validators {
+		if !newcomers[v.Address] {
+			continue
+		}
+		mv := m.find(v.Address)
+		if mv == nil || v.ProposerPriority-mv.prio != off {
+			return "newcomers-differ"
+		}
+	}
+	return "all-shifted"
+}
+
+// noteMagnitude records how close to the int64 limits the implementation's priorities have come (overflow clause).
+func (w *world) noteMagnitude() {
+	if w.vs == nil {
+		return
+	}
+	for _, v := range w.vs.Validators {
+		a := v.ProposerPriority
+		if a < 0 {
+			a = -a
+		}
+		if a < 0 { // MinInt64
+			a = 1<<63 - 1
+		}
+		if a > w.maxAbs {
+			w.maxAbs = a
+		}
+	}
+}
+
+func (w *world) magnitudeClass() string {
+	switch {
+	case w.maxAbs < 1<<32:
+		return "max|priority|<2^32"
+	case w.maxAbs < capM:
+		return "max|priority|<cap"
+	case w.maxAbs < 2*capM:
+		return "max|priority|<2cap"
+	case w.maxAbs < 4*capM:
+		return "max|priority|<4cap"
+	default:
+		return "max|priority|>=4cap(MaxInt64/2)"
+	}
 }
 
 // ---------------------------------------------------------------- actions
@@ -325,6 +410,9 @@ func (w *world) noteRounds(k int64) {
 }
 
 func (w *world) inc(k int64) {
+	if w.dead {
+		return
+	}
 	w.logf("inc%d", k)
 	ev.Guard(w.t, w.text, func() { w.vs.IncrementProposerPriority(k) })
 	w.settle("increment", func(m *model) { m.increment(k) }, true, nil)
@@ -333,6 +421,9 @@ func (w *world) inc(k int64) {
 
 // copyInc: CopyIncrementProposerPriority must leave the receiver alone and return the advanced set.
 func (w *world) copyInc(k int64) {
+	if w.dead {
+		return
+	}
 	w.logf("cinc%d", k)
 	before := snap(w.vs)
 	var cp *types.ValidatorSet
@@ -348,6 +439,9 @@ func (w *world) copyInc(k int64) {
 
 // copyStep: continue on a Copy; advancing the original afterwards must not show in the copy.
 func (w *world) copyStep() {
+	if w.dead {
+		return
+	}
 	w.logf("copy")
 	before := snap(w.vs)
 	var cp *types.ValidatorSet
@@ -365,6 +459,9 @@ func (w *world) copyStep() {
 
 // protoStep: continue on the set that went through ToProto / ValidatorSetFromProto (how the state store keeps it).
 func (w *world) protoStep() {
+	if w.dead {
+		return
+	}
 	w.logf("proto")
 	before := snap(w.vs)
 	var back *types.ValidatorSet
@@ -441,6 +538,9 @@ func permute(cs []chg, p []int) []chg {
 
 // update offers a change set. The model decides whether the property wants it accepted.
 func (w *world) update(changes []chg) {
+	if w.dead {
+		return
+	}
 	m := w.cur()
 	kinds := m.classify(changes)
 	pre := snap(w.vs)
@@ -544,14 +644,52 @@ func (w *world) update(changes []chg) {
 	}
 }
 
+// drift builds a world of ten dust validators and applies `steps` change sets of the pattern that moves one old
+// member's priority up by about a tenth of the cap each time when nothing enforces the window: the previous
+// newcomer shrinks to power 1, the oldest dust member (never the first one) leaves, a newcomer takes the rest of the
+// cap. Every change set is valid; around 77 steps the priority reaches MaxInt64.
+func drift(t ev.TB, steps int) *world {
+	var initial []chg
+	for i := 0; i < 10; i++ {
+		initial = append(initial, chg{pool[i], 1})
+	}
+	w := newWorld(t, initial)
+	lows := append([]common.Address{}, pool[1:10]...)
+	spare := []common.Address{pool[10], pool[11]}
+	for s := 0; s < steps && !w.dead; s++ {
+		m := w.cur()
+		oldest, last := lows[0], lows[len(lows)-1]
+		lows = lows[1:]
+		var cs []chg
+		tot := m.total() - m.find(oldest).power
+		if p := m.find(last).power; p > 1 {
+			tot -= p - 1
+			cs = append(cs, chg{last, 1})
+		}
+		nw := spare[0]
+		spare = append(spare[1:], oldest)
+		cs = append(cs, chg{oldest, 0}, chg{nw, capM - tot})
+		lows = append(lows, nw)
+		w.update(cs)
+	}
+	return w
+}
+
 // ---------------------------------------------------------------- the state machine
 
 func TestRotationModel(t *testing.T) {
 	maxSteps := ev.Scale("STEPS", 24)
 	rapid.Check(t, func(t *rapid.T) {
-		initial, shape := genInitial(t)
-		w := newWorld(t, initial)
-		w.class("init-" + shape)
+		var w *world
+		if rapid.IntRange(0, 15).Draw(t, "drift") == 0 {
+			// start from a state in which valid change sets alone have driven a priority far out (see drift)
+			w = drift(t, rapid.IntRange(10, 90).Draw(t, "driftsteps"))
+			w.class("init-drifted")
+		} else {
+			initial, shape := genInitial(t)
+			w = newWorld(t, initial)
+			w.class("init-" + shape)
+		}
 		n := rapid.IntRange(1, maxSteps).Draw(t, "steps")
 		for i := 0; i < n; i++ {
 			op := rapid.IntRange(0, 99).Draw(t, "op")
